@@ -233,6 +233,10 @@ fn cmd_conc(args: &[String]) {
     let only: Option<u64> = arg(args, "--case-seed").and_then(|s| s.parse().ok());
     let verbose = arg(args, "--verbose").is_some();
     let lin_path = arg(args, "--lin");
+    let trav_path = arg(args, "--trav");
+    let mut trav_lines: Vec<String> = vec![];
+    let ctl_path = arg(args, "--ctl");
+    let mut ctl_lines: Vec<String> = vec![];
     let progress = arg(args, "--progress");
     let life = arg(args, "--life").map(|s| s == "1").unwrap_or(false);
     let mut lin_lines: Vec<String> = vec![];
@@ -273,6 +277,21 @@ fn cmd_conc(args: &[String]) {
         ops += r.calls.len();
         keys_checked += v.keys_checked;
         lin_lines.extend(v.lin_lines.iter().cloned());
+        if trav_path.is_some() && r.outcome.solo_blocked.is_none() && !r.outcome.deadlock && !r.outcome.budget_exceeded {
+            for c in r.calls.iter().filter(|c| matches!(c.op, conc::COp::FrozenIter)) {
+                if let Some(chain) = c.result.split(" | chain=").nth(1) {
+                    if chain != "-" {
+                        trav_lines.push(format!("# case-seed {} mode {}", cseed, mode));
+                        trav_lines.push(format!("trav chain={}", chain));
+                        trav_lines.push(format!("want {}", c.yielded.iter().map(|y| format!("{}.{}.{}", y.0, y.1, y.2)).collect::<Vec<_>>().join(",")));
+                    }
+                }
+            }
+        }
+        if ctl_path.is_some() {
+            ctl_lines.push(format!("# case-seed {} mode {}", cseed, mode));
+            ctl_lines.push(r.ctl_line.clone());
+        }
         *by_class.entry(case.hash_class.to_string()).or_default() += 1;
         for e in &r.trace {
             sites.insert(format!("{}:{}", e.file.rsplit('/').next().unwrap_or(""), e.line));
@@ -314,6 +333,12 @@ fn cmd_conc(args: &[String]) {
         if only.is_some() {
             break;
         }
+    }
+    if let Some(p) = trav_path {
+        std::fs::write(p, trav_lines.join("\n") + "\n").unwrap();
+    }
+    if let Some(p) = ctl_path {
+        std::fs::write(p, ctl_lines.join("\n") + "\n").unwrap();
     }
     if let Some(p) = lin_path {
         std::fs::write(p, lin_lines.join("\n") + "\n").unwrap();
